@@ -81,9 +81,21 @@ def _offset(draw, A, b):
     return [float(v) for v in (np.array(b, float) + A @ x0)], k
 
 
+def _scale(draw, A, b, big=False):
+    """the same problem in other units: A and b multiplied by 2^k (exact, so the planted rank stays exact); x is unchanged,
+    residuals scale by 2^k.  Rank decisions must not depend on the unit (absolute pivot tolerances do)."""
+    if draw(st.integers(0, 3)) != 0:
+        return A, b, 0
+    # factors above 2^10 only where asked for (C01): the absolute tolerance of ICGS (gso) then takes the rounding of a dependent
+    # column for an independent one - recorded as a known finding there
+    k = draw(st.sampled_from([-20, -17, -14, -10, -5, 5, 10] + ([14, 17] if big else [])))
+    f = 2.0 ** k
+    return A * f, [float(v) * f for v in b], k
+
+
 @st.composite
 def linear_problem(draw, max_n=9, max_extra=10, unit_cov=False, singular_only=False,
-                   minx_mode=None):
+                   minx_mode=None, big_scale=False):
     n = draw(st.integers(2 if singular_only else 1, max_n))
     if singular_only:
         d = draw(st.integers(1, min(3, n - 1)))
@@ -129,6 +141,7 @@ def linear_problem(draw, max_n=9, max_extra=10, unit_cov=False, singular_only=Fa
     dep_positions = [i for i, p in enumerate(perm) if p >= r]
     b = [draw(st.integers(-20, 20)) / (2.0 if real else 1.0) for _ in range(m)]
     b, offset = _offset(draw, A, b) if n else (b, 0)
+    A, b, pow2 = _scale(draw, A, b, big_scale) if n else (A, b, 0)
     blocks = draw(blocks_for(m, unit=unit_cov))
     # regularisation
     mode = minx_mode or draw(st.sampled_from(["none", "all", "subset", "subset", "depcols"]))
@@ -159,7 +172,7 @@ def linear_problem(draw, max_n=9, max_extra=10, unit_cov=False, singular_only=Fa
     if minx is not None and draw(st.booleans()):
         minx = list(draw(st.permutations(minx)))
     return {"m": int(m), "n": int(n), "A": A.tolist(), "b": b, "blocks": blocks,
-            "minx": minx, "d": int(d), "zero_col": zero_col, "mode": mode, "offset": offset}
+            "minx": minx, "d": int(d), "zero_col": zero_col, "mode": mode, "offset": offset, "pow2": pow2}
 
 
 def script_problem(case, minx="case"):
@@ -182,7 +195,7 @@ def script_problem(case, minx="case"):
 
 
 @st.composite
-def graph_problem(draw, min_n=10, max_n=40, singular_only=False, minx_mode=None):
+def graph_problem(draw, min_n=10, max_n=40, singular_only=False, minx_mode=None, big_scale=False):
     """Larger sparse problems with the structure of real networks (DESIGN 9.1 named the small sizes as a limit):
     unknowns are nodes of a graph with 1..4 connected components, observation rows have coefficients that sum to zero
     inside one component (weighted differences e_j - e_i, second differences e_i - 2 e_j + e_k), anchored components get
@@ -255,6 +268,7 @@ def graph_problem(draw, min_n=10, max_n=40, singular_only=False, minx_mode=None)
             A[r, j] = v
     b = [float(draw(st.integers(-20, 20))) for _ in range(m)]
     b, offset = _offset(draw, A, b)
+    A, b, pow2 = _scale(draw, A, b, big_scale)
     blocks = []
     left = m
     while left > 0:
@@ -286,4 +300,4 @@ def graph_problem(draw, min_n=10, max_n=40, singular_only=False, minx_mode=None)
         if draw(st.booleans()):
             minx = list(draw(st.permutations(minx)))
     return {"m": int(m), "n": int(n), "A": A.tolist(), "b": b, "blocks": blocks,
-            "minx": minx, "d": int(d), "zero_col": zero_col, "mode": mode, "graph": True, "offset": offset}
+            "minx": minx, "d": int(d), "zero_col": zero_col, "mode": mode, "graph": True, "offset": offset, "pow2": pow2}
